@@ -211,6 +211,19 @@ class Master:
                     still.append((b, spec, proc, op, ts))
                     continue
                 res = self.wait_worker(proc, op, 5)
+                if "harness_error" in res and proc.returncode is not None \
+                        and proc.returncode < 0 and \
+                        spec.get("_retries", 0) < 2 and \
+                        time.time() < deadline:
+                    # the worker was killed by a signal from outside (the
+                    # simulation itself cannot send real signals): the batch
+                    # is a pure function of its spec, run it again
+                    spec["_retries"] = spec.get("_retries", 0) + 1
+                    proc2, op2 = self.run_worker(
+                        spec, "b-%s-%05d-r%d" % (spec["engine"], b,
+                                                 spec["_retries"]))
+                    still.append((b, spec, proc2, op2, time.time()))
+                    continue
                 res["batch"] = b
                 res["engine"] = spec["engine"]
                 res["boot"] = spec["boot"]
